@@ -11,6 +11,8 @@ from . import c04
 ID = "C16"
 LEVEL = "model_checking"
 CONFIG = {"minimum_simulation_budget": 1}
+# a second pass with small resource limits: limit errors are observable results too and must not depend on what was reclaimed
+CONFIG_LIMITS = {"minimum_simulation_budget": 1, "max_motifs_per_node": 2, "attractor_candidates_limit": 3}
 
 
 def observable(net, sd):
@@ -58,9 +60,9 @@ def closing(net):
     return ops
 
 
-def run_trace(net, hist, marks):
+def run_trace(net, hist, marks, config=None):
     """execute hist; returns list of (retval, observable) for the positions in marks (indices into hist), or ('raised', text)"""
-    sd = new_sd(net, CONFIG)
+    sd = new_sd(net, config or CONFIG)
     out = []
     for i, op in enumerate(hist):
         try:
@@ -118,7 +120,7 @@ def plan(tier, seed):
     api = [("api", ("k", k), UNSORTED[n.n]) for k, n in K.items() if n.n in UNSORTED and len(n.sd[0]) >= 2 and n.n <= 4]
     api += [("api", ("idx", 2, i), UNSORTED[2]) for i in U2 if c04.sd_size(("idx", 2, i)) >= 3]
     units = [("hist", [s], 1 if len(U.resolve(s).sd[0]) <= 4 else 0) for s in api]
-    units += [("hist", [s], d if (tier == "quick" or c04.sd_size(s) <= 3) else 1) for s in nets] + [("hist", ch, 0) for ch in U.chunks(f3, 4)] + [("hist", ch, 1 if tier != "quick" else 0) for ch in U.chunks(u2f, 3)]
+    units += [("hist+limits" if (U.resolve(s).n <= 3 and c04.sd_size(s) >= 3) else "hist", [s], d if (tier == "quick" or c04.sd_size(s) <= 3) else 1) for s in nets] + [("hist", ch, 0) for ch in U.chunks(f3, 4)] + [("hist", ch, 1 if tier != "quick" else 0) for ch in U.chunks(u2f, 3)]
     big = [("k", k) for k, n in K.items() if n.n > 4] if tier == "quick" else []
     units += [("hist", [s], 0) for s in big]
     units.sort(key=lambda u: -u[2])
@@ -133,15 +135,16 @@ def plan(tier, seed):
                 "interventions exactly, booleans) and the observable diagram (ids, spaces, flags, depths, edges, motifs, known "
                 "attractors) after every continuation step must equal those of the run without the insertion; non-trivial = "
                 "distinct (network, state) with some cached attractor data or percolated data at the insertion point",
-        "assumptions": ["configuration: defaults except minimum_simulation_budget=1"],
+        "assumptions": ["configuration: defaults except minimum_simulation_budget=1; networks with <=3 variables and >=3 diagram nodes are explored a second time with max_motifs_per_node=2 and attractor_candidates_limit=3 (limit errors are compared like any other result)"],
         "unit_timeout": 3000,
     }
 
 
-def explore_net(net, spec, depth, res):
+def explore_net(net, spec, depth, res, config=None):
+    config = config or CONFIG
     vio = []
     if depth:
-        ex = Explorer(net, lambda n, s: full_ops(n, s), None, config=CONFIG, max_states=300 if depth < 2 else 120)
+        ex = Explorer(net, lambda n, s: full_ops(n, s), None, config=config, max_states=300 if depth < 2 else 120)
         states = ex.run(depth=depth)
         if ex.capped:
             res["caps"].append({"net": repr(net)[:80], "cap": "max_states"})
@@ -152,7 +155,7 @@ def explore_net(net, spec, depth, res):
         res["states"] += 1
     clos = closing(net)
     for h in states:
-        base = replay_hist(net, h, CONFIG)
+        base = replay_hist(net, h, config)
         if any(base.node_data(i)["attractor_seeds"] is not None or base.node_data(i)["attractor_candidates"] is not None
                or base.node_data(i)["percolated_petri_net"] is not None or base.node_data(i)["percolated_network"] is not None for i in base.node_ids()):
             res["nontrivial"].add((repr(spec), h))
@@ -161,19 +164,20 @@ def explore_net(net, spec, depth, res):
             tail = list(cont) + clos
             ref_hist = list(h) + tail
             marks = set(range(len(h), len(ref_hist)))
-            ref_trace, _ = run_trace(net, ref_hist, marks)
+            ref_trace, _ = run_trace(net, ref_hist, marks, config)
             for X in (("pickle",), ("reclaim",)):
                 var_hist = list(h) + [X] + tail
                 vmarks = set(range(len(h) + 1, len(var_hist)))
                 res["evals"] += 1
                 res["transitions"] += len(var_hist)
-                var_trace, _ = run_trace(net, var_hist, vmarks)
+                var_trace, _ = run_trace(net, var_hist, vmarks, config)
                 if var_trace != ref_trace:
                     # first difference
                     j = next((j for j in range(min(len(ref_trace), len(var_trace))) if ref_trace[j] != var_trace[j]), min(len(ref_trace), len(var_trace)))
                     what = "return-value" if j < len(ref_trace) and j < len(var_trace) and ref_trace[j][0] != var_trace[j][0] else "diagram-state"
                     opj = tail[j] if j < len(tail) else None
-                    vio.append(V(f"{X[0]}-changes-{what}", {"net": list(spec), "history": [list(x) for x in h], "insert": X[0], "cont": [list(x) for x in cont]},
+                    vio.append(V(f"{X[0]}-changes-{what}", {"net": list(spec), "history": [list(x) for x in h], "insert": X[0], "cont": [list(x) for x in cont],
+                                                            "limits": config is not CONFIG},
                                  f"{net!r}: after {h} insert {X[0]} then {cont}: first difference at step {j} ({opj}): "
                                  f"{str(var_trace[j])[:300] if j < len(var_trace) else 'missing'} vs {str(ref_trace[j])[:300] if j < len(ref_trace) else 'missing'}",
                                  site=f"{X[0]}:{opj[0] if opj else 'end'}"))
@@ -189,6 +193,8 @@ def run_unit(unit):
         try:
             with case_timeout(2400):
                 vio = explore_net(net, spec, depth, res)
+                if kind == "hist+limits":
+                    vio += explore_net(net, spec, depth, res, CONFIG_LIMITS)
         except CaseTimeout:
             res["hangs"].append({"case": {"net": list(spec)}, "why": "exceeded 2400 s"})
             res["caps"].append({"net": list(spec), "cap": "time"})
@@ -214,12 +220,13 @@ def replay(case):
     cont = [_t(o) for o in case["cont"]]
     X = (case["insert"],)
     tail = cont + closing(net)
+    cfg = CONFIG_LIMITS if case.get("limits") else CONFIG
     try:
         with case_timeout(300):
             ref_hist = h + tail
-            ref_trace, _ = run_trace(net, ref_hist, set(range(len(h), len(ref_hist))))
+            ref_trace, _ = run_trace(net, ref_hist, set(range(len(h), len(ref_hist))), cfg)
             var_hist = h + [X] + tail
-            var_trace, _ = run_trace(net, var_hist, set(range(len(h) + 1, len(var_hist))))
+            var_trace, _ = run_trace(net, var_hist, set(range(len(h) + 1, len(var_hist))), cfg)
     except CaseTimeout:
         return [V("terminates", case, "hang")]
     if var_trace != ref_trace:
